@@ -12,6 +12,7 @@ import (
 	"fmt"
 	"io"
 	"net/http"
+	"net/textproto"
 
 	sse "github.com/tmaxmax/go-sse"
 	"github.com/tmaxmax/go-sse/vrt"
@@ -54,6 +55,19 @@ type env struct {
 	// first event is severed at offset variant forceVar; 0: none.
 	forceAt, forceVar int
 	writeNo           int
+	// headCuts: once the forced body cut has happened, the remaining fault is a cut inside the HEAD of a later
+	// response (status line or header block): RoundTrip then fails with one of the errors net/http reports for
+	// a truncated head, and the handler finds its connection broken from the start.
+	headCuts bool
+	forced   bool
+}
+
+// what net/http's client returns when the connection breaks inside the response head, by where it breaks
+var headCutErrors = []error{
+	io.ErrUnexpectedEOF,                                                     // on a line boundary of the head, or before its first byte on a reused connection
+	errors.New(`malformed HTTP response "HTTP/"`),                           // inside the protocol token of the status line
+	textproto.ProtocolError(`malformed MIME header: missing colon: "Cont"`), // inside a header name
+	errCut, // connection reset
 }
 
 func (l *link) Header() http.Header { return l.hdr }
@@ -107,11 +121,14 @@ func (l *link) Write(p []byte) (int, error) {
 		l.env.writeNo++
 		if l.env.forceAt == l.env.writeNo && l.env.forceVar < len(offsets) {
 			k := offsets[l.env.forceVar]
+			l.env.forced = true
 			l.sever(p[:k])
 			l.written += k
 			return k, errCut
 		}
-		if j := vrt.ChooseFault(len(offsets)+1, 1, "cut inside this write"); j > 0 {
+		if l.env.headCuts {
+			// in these scenarios the remaining fault budget is for response heads only
+		} else if j := vrt.ChooseFault(len(offsets)+1, 1, "cut inside this write"); j > 0 {
 			k := offsets[j-1]
 			l.sever(p[:k])
 			l.written += k
@@ -165,6 +182,14 @@ func (t *transport) RoundTrip(req *http.Request) (*http.Response, error) {
 			vrt.Close(l.ch) // the handler returned: the body ends cleanly
 		}
 	}))
+	if t.env.headCuts && t.env.forced && t.env.firstEvent.Peek() == 1 {
+		if k := vrt.ChooseFault(len(headCutErrors)+1, 1, "cut inside the response head"); k > 0 {
+			l.cut = true
+			t.env.log = append(t.env.log, fmt.Sprintf("attempt %d severed inside the response head (%v)", n, headCutErrors[k-1]))
+			l.sctx.CancelNow()
+			return nil, headCutErrors[k-1]
+		}
+	}
 	// wait for the response head or for the client's own cancellation
 	cctx := req.Context()
 	started := vrt.CaseRecv(l.started)
